@@ -186,7 +186,8 @@ def handleSeq (inp impl : Json) : R OpResult := do
   -- oracles on the implementation's trace
   let iSteps ← jlistM (jlistM callOf) (← jget impl "steps")
   let iFin ← jlistM callOf (← jget impl "fin")
-  let mut tags := ["op:seq", sizeTag "steps" steps.length]
+  let mut tags := ["op:seq", sizeTag "steps" steps.length] ++
+    (match jopt inp "conflictHit" with | some (.bool true) => ["fault:conflict-on-write"] | _ => [])
   let mut holds : List (String × Bool) := []
   let kinds := steps.map fun (s, _) => kindOf s.weight s.ms
   for (a, b) in kinds.zip (kinds.drop 1) do
